@@ -208,8 +208,9 @@ impl ViNormal {
 					return Some(
 						ViCmd {
 							register,
-							verb: Some(VerbCmd(count, Verb::Change)),
-							motion: Some(MotionCmd(1, Motion::WholeLine)),
+							// 'S' is 'cc'
+							verb: Some(VerbCmd(1, Verb::Change)),
+							motion: Some(MotionCmd(count, Motion::WholeLineExclusive)),
 							raw_seq: self.take_cmd(),
 							flags: self.flags()
 						}
@@ -807,8 +808,9 @@ impl ViNormal {
 					return Some(
 						ViCmd {
 							register,
-							verb: Some(VerbCmd(count, Verb::Change)),
-							motion: Some(MotionCmd(1, Motion::WholeLine)),
+							// 'S' is 'cc'
+							verb: Some(VerbCmd(1, Verb::Change)),
+							motion: Some(MotionCmd(count, Motion::WholeLineExclusive)),
 							raw_seq: self.take_cmd(),
 							flags: self.flags()
 						}
